@@ -45,7 +45,7 @@ def run(ctx):
                 if p["statistic"] == "tstat":
                     vs = [0.9, 0.6, 0.3, 0.2, 0.05, 0.01]       # (significance levels above one half are legal)
                 else:
-                    vs = [0.5, 1.0, 2.0, 3.0]
+                    vs = [0.05, 0.3, 0.5, 0.8, 1.0, 1.5, 2.0, 3.0]       # (a "number of deviations" below one is a legal, loose setting)
             else:
                 vs = vals
             i1, i2 = sorted(rng.sample(range(len(vs)), 2))
